@@ -40,20 +40,25 @@ MANIFEST = dict(
          "`;` or line breaks with blank lines anywhere between them parse to the list of their meanings. "
          "C10_precedence: every abstract operator tree rendered with the minimal "
          "parentheses of the table is read back as itself. C10_parens: redundant parentheses / alternative spellings never "
-         "change the result. C10_sound_core + C10_characterised (one statement) and C10_sound_seq (`;`-separated statements): "
-         "on token lists without newline tokens and trailing commas whose statements are expressions, plain lets or "
-         "procedure calls, whatever the parser accepts IS the print of well-formed trees and denotes them (acceptance "
-         "characterised exactly: nothing outside the grammar is accepted or reinterpreted). C10_fuel: the parser never runs "
-         "out of fuel on ANY token list (all statement forms). C10_lex_number(+_sound) / C10_lex_ident(+_sound): for literals "
-         "and identifiers of ANY length and ANY Unicode identifier classes (parameters), the documented decimal number "
-         "notation resp. start/continue words are exactly what the tokenizer model turns into one Number resp. "
-         "Identifier/keyword token (both directions). C10_optable / C10_lex_tables: the precedence chain, operator token "
-         "sets, keyword map and subscript range re-extracted from the Rust source on every run equal the model's; documented "
-         "spellings and number forms lex as documented (finite tables). NOT proved: soundness (the converse direction) for "
-         "definitions and for inputs with newline tokens / trailing commas (C10_full); string interpolation (explicit "
-         "Unsupported in lexer and parser model); a `>=` token that closes a type-parameter list (Unsupported) — these rest "
-         "on the model-vs-implementation correspondence (token kinds, lexemes, trees, first error kind) and the reference "
-         "recogniser.",
+         "change the result. C10_sound_core + C10_characterised + C10_sound_seq (expressions, plain lets, procedure calls), "
+         "C10_sound_type / C10_sound_dexpr (type annotations, on ALL token lists) and C10_sound_statement / C10_full_partial "
+         "(EVERY statement form: let with annotation and decorators, fn, dimension, unit, use, struct, `;`-separated programs; "
+         "C10_characterised_full: both directions, acceptance characterised exactly): "
+         "on token lists without line-break tokens and trailing commas (and without the degenerate type-parameter spellings "
+         "`<>` after fn / struct names and `<A,>`), whatever the parser accepts IS the print of well-formed trees and denotes "
+         "them (acceptance characterised exactly: nothing outside the grammar is accepted or reinterpreted). C10_fuel: the "
+         "parser never runs out of fuel on ANY token list (all statement forms). C10_lex_number(+_sound) / "
+         "C10_lex_ident(+_sound): for literals and identifiers of ANY length and ANY Unicode identifier classes (parameters), "
+         "the documented decimal number notation resp. start/continue words are exactly what the tokenizer model turns into "
+         "one Number resp. Identifier/keyword token (both directions). C10_optable / C10_lex_tables: the precedence chain, "
+         "operator token sets, keyword map and subscript range re-extracted from the Rust source on every run equal the "
+         "model's; documented spellings and number forms lex as documented (finite tables). The lexer model carries the "
+         "tokenizer's scope stack and last-token state, so interpolated strings are lexed by the model and compared token by "
+         "token. NOT proved (the remaining gap of C10_full): soundness for token lists WITH line-break tokens (inside "
+         "brackets, after `=`, before where / and, after decorators, blank lines) and trailing commas — there only the "
+         "completeness direction (C10_roundtrip_program) and the correspondence check apply; a `>=` token that closes a "
+         "type-parameter list is an explicit Unsupported of the model (the implementation splits it into `>` `=`; a defect "
+         "in that splitting was fixed in phase 4 and is pinned by corpus cases).",
     design_ref="DESIGN.md §6 C10; design/syntax.md",
     note="Trusted: Coq kernel + vm_compute; the hand port of parser.rs/tokenizer.rs in coq/theories/Syntax/{Parser,Lexer}.v "
          "(validated on every run by the correspondence check and by the regenerated operator table Gen/OpTable.v, "
@@ -68,7 +73,8 @@ MANIFEST = dict(
 THEOREMS = ["C10_roundtrip", "C10_roundtrip_stmt", "C10_roundtrip_type", "C10_roundtrip_dexpr",
             "C10_roundtrip_def", "C10_roundtrip_program",
             "C10_precedence", "C10_parens", "C10_fuel", "C10_sound_core",
-            "C10_characterised", "C10_sound_seq",
+            "C10_characterised", "C10_sound_seq", "C10_sound_type", "C10_sound_dexpr",
+            "C10_sound_statement", "C10_full_partial", "C10_characterised_full",
             "C10_optable", "C10_lex_tables", "C10_lex_number", "C10_lex_number_sound",
             "C10_lex_ident", "C10_lex_ident_sound"]
 ALLOWED_AXIOMS = []
@@ -444,7 +450,7 @@ def run(chk):
                     for n in (0, len(cases) // 3, len(cases) // 2, len(cases) - 1)],
     })
     chk.assumptions += ["identifiers and other characters are drawn from the character set listed in Syntax/Exec.v (supported)",
-                        "string interpolation and statement syntax are outside the model (explicit UNSUPPORTED result, not compared)"]
+                        "a `>=` token that closes a type-parameter list is outside the model (explicit UNSUPPORTED result, not compared)"]
 
 
 def replay(path):
